@@ -538,8 +538,9 @@ def resolve(fn, e, depth=3):
     'introduce explaining variable', for values the normaliser does not substitute because they are not pure)"""
     if depth == 0 or e is None:
         return e
-    if isinstance(e, ast.Name):
+    if isinstance(e, ast.Name) and e.id not in param_names(fn):
         defs = [s for s in walk_func(fn) if isinstance(s, ast.Assign) and len(s.targets) == 1 and isinstance(s.targets[0], ast.Name) and s.targets[0].id == e.id]
+        defs = [s for s in defs if not any(isinstance(x, ast.Name) and x.id == e.id for x in ast.walk(s.value))]
         others = [n for n in walk_func(fn) if isinstance(n, ast.Name) and n.id == e.id and isinstance(n.ctx, (ast.Store, ast.Del))]
         if len(defs) == 1 and len(others) == 1:
             return resolve(fn, defs[0].value, depth - 1)
@@ -564,10 +565,10 @@ def resolve_deep(fn, e, depth=3):
 
     class R(ast.NodeTransformer):
         def visit_Name(self, n):
-            if isinstance(n.ctx, ast.Load):
-                r = resolve(fn, n, depth)
+            if isinstance(n.ctx, ast.Load) and depth > 0:
+                r = resolve(fn, n, 1)
                 if r is not n:
-                    return R().visit(_clone_expr(r))
+                    return resolve_deep(fn, r, depth - 1)
             return n
     return R().visit(_clone_expr(e))
 
